@@ -4,6 +4,7 @@ import (
 	"math"
 	"slices"
 	"strconv"
+	"strings"
 )
 
 // A Tree is a radix tree that represents a set of Web origins.
@@ -256,6 +257,11 @@ func (n *node) upsertEdge(label byte, child node) *node {
 // (using suf as base suffix) to dst.
 func (n *node) elems(dst *[]string, suf string) {
 	suf = n.suf + suf
+	host := suf
+	if strings.IndexByte(host, hostPortSep) >= 0 {
+		// IPv6 address: restore the brackets that ParsePattern requires.
+		host = "[" + host + "]"
+	}
 	// We iterate over n.ports rather than n.schemes in order to
 	// hoist most bounds checks out of the (outer) loop.
 	for i, ports := range n.ports {
@@ -269,11 +275,11 @@ func (n *node) elems(dst *[]string, suf string) {
 			var s string
 			switch port {
 			case 0:
-				s = scheme + schemeHostSep + maybeWildcard + suf
+				s = scheme + schemeHostSep + maybeWildcard + host
 			case wildcardPort:
-				s = scheme + schemeHostSep + maybeWildcard + suf + string(hostPortSep) + portWildcard
+				s = scheme + schemeHostSep + maybeWildcard + host + string(hostPortSep) + portWildcard
 			default:
-				s = scheme + schemeHostSep + maybeWildcard + suf + string(hostPortSep) + strconv.Itoa(port)
+				s = scheme + schemeHostSep + maybeWildcard + host + string(hostPortSep) + strconv.Itoa(port)
 			}
 			*dst = append(*dst, s)
 		}
